@@ -26,7 +26,8 @@ META = {
         "and response bodies are decoded once from the joined reads on both sides, so a non-ASCII argument or result survives any chunking; "
         "C01.10 every constructor that receives a config (PooledJSONRPCServer, CGI handler, the three transports, ServerProxy's default "
         "transports) hands that very object to the package constructors it calls, so the class-translation switch of the caller's Config "
-        "is the one in force for every server class and transport."),
+        "is the one in force for every server class and transport, and every normal path through the constructor of a server, CGI handler, "
+        "transport, Unix connection or TransportError runs the constructor of each base that sets up state (frozen table BASE_INITS)."),
     "does_not_decide": "equality of values after JSON normalisation, Unicode/float fidelity of the backend, socket "
                        "behaviour of the three transports, exactly-once across retries inside xmlrpc.client.",
     "rules": {"C01.1": "CFG exploration + provenance", "C01.2": "provenance of arguments", "C01.3": "exploration with a call counter",
@@ -218,6 +219,29 @@ def check(ck):
     ck.require(okk, "C01.8", "%s: the reply written is the dispatcher's result" % q.fn(fpost), "to_bytes(<_marshaled_dispatch result | fault.response()>)",
                "the bytes written to the client are not the dispatcher's reply", q.loc(fpost, fpost.node))
 
+    # the CGI handler: the request text goes to the dispatcher, the encoded reply is written after a header block closed by
+    # an empty line
+    fcgi = prog.func(SRV, "CGIJSONRPCRequestHandler.handle_jsonrpc")
+    gcg = cfg_of(fcgi)
+    dcg = [(n, c) for n in gcg.live_nodes() for c in node_calls(n) if call_name(c) == "_marshaled_dispatch"]
+    okk = len(dcg) == 1 and dcg[0][1].args and prov.origin(gcg, dcg[0][0], dcg[0][1].args[0]) == ("param", fcgi.params[1])
+    ck.require(okk, "C01.8", "%s: dispatch receives the request text" % q.fn(fcgi), "self._marshaled_dispatch(request_text)",
+               "the CGI handler does not hand the request text to the dispatcher", q.loc(fcgi, fcgi.node))
+    wcg = [(m, cc) for m in gcg.live_nodes() for cc in node_calls(m) if call_name(cc) == "write" and cc.args]
+    okk = len(wcg) == 1
+    if okk:
+        tw = prov.origin(gcg, wcg[0][0], wcg[0][1].args[0])
+        okk = prov.contains(tw, lambda x: x[0] == "call" and x[1][0] == "attr" and x[1][2] == "_marshaled_dispatch") and \
+            prov.contains(tw, lambda x: x[0] == "call" and x[1][0] == "attr" and x[1][2] == "encode")
+    ck.require(okk, "C01.8", "%s: the reply written is the dispatcher's result, encoded" % q.fn(fcgi), "write(<_marshaled_dispatch result>.encode(...))",
+               "the CGI handler does not write the encoded reply of the dispatcher", q.loc(fcgi, fcgi.node))
+    blank = [m for m in gcg.live_nodes() for cc in node_calls(m) if isinstance(cc.func, ast.Name) and cc.func.id == "print" and not cc.args and not cc.keywords]
+    heads = [m for m in gcg.live_nodes() for cc in node_calls(m) if isinstance(cc.func, ast.Name) and cc.func.id == "print" and cc.args]
+    dom_cg = dominators(gcg)
+    okk = len(blank) == 1 and bool(wcg) and blank[0].id in dom_cg[wcg[0][0].id] and all(h.id in dom_cg[blank[0].id] for h in heads) and len(heads) >= 2
+    ck.require(okk, "C01.8", "%s: headers, empty line, body" % q.fn(fcgi), "print() between the header lines and the body",
+               "the CGI reply is not <header lines> <empty line> <body>: the web server cannot separate the headers from the JSON text", q.loc(fcgi, fcgi.node))
+
     # ---- C01.2 request construction ---------------------------------------------------------------
     for meth, notify in (("ServerProxy._request", False), ("ServerProxy._request_notify", True)):
         fi = prog.func("jsonrpc", meth)
@@ -233,6 +257,17 @@ def check(ck):
             t = q.arg_origin(fi, n, c, name, pos[name])
             ck.require(t == w, "C01.2", "%s: dumps(%s=...)" % (q.fn(fi), name), "passes %s" % prov.show(w),
                        "dumps receives %s as `%s` (expected %s)" % (prov.show(t) if t else "nothing", name, prov.show(w)), q.loc(fi, n))
+    # what the proxy stores as its version / configuration: the caller's version, else the configuration's
+    fpi = prog.func("jsonrpc", "ServerProxy.__init__")
+    gpi = cfg_of(fpi)
+    vst = [n for n in gpi.live_nodes() if n.kind == "stmt" and isinstance(n.ast, ast.Assign) and any(dump(t_) == "self.__version" for t_ in n.ast.targets)]
+    if len(vst) != 1:
+        raise AnalysisError("anchor vanished: store of self.__version in ServerProxy.__init__ (found %d)" % len(vst))
+    tv = prov.origin(gpi, vst[0], vst[0].ast.value)
+    ck.require(tv == ("or", (("param", "version"), ("attr", ("param", "config"), "version"))), "C01.2",
+               "%s: self.__version" % q.fn(fpi), "version or config.version",
+               "the proxy stores %s as its protocol version: a version given to the proxy is not the one used for its requests (or the "
+               "configuration's is not the default)" % prov.show(tv), q.loc(fpi, vst[0]))
     fd = prog.func("jsonrpc", "dump")
     gd = cfg_of(fd)
     dd = dominators(gd)
@@ -344,6 +379,22 @@ def check(ck):
         elif found is False:
             ck.require(cnt == 0, "C01.3", "%s: not-found path" % q.fn(fdi), "no invocation", "callable invoked on the not-found path",
                        q.loc(fdi, rn), ex.describe_path(st))
+    # a callable registered through an instance is found: the instance is consulted exactly when one is registered, and dotted
+    # names are resolved (third argument of resolve_dotted_attribute)
+    rdas = [(n, c) for n in g.live_nodes() for c in node_calls(n)
+            if isinstance(prog.resolve_call(fdi, c), str) and prog.resolve_call(fdi, c).endswith("resolve_dotted_attribute")]
+    for (n, c) in rdas:
+        gs_ = q.guards_of(g, n)
+        inst = [(p_ if dump(t_) == "self.instance is not None" else (not p_)) for (t_, p_) in gs_
+                if dump(t_) in ("self.instance is not None", "self.instance is None")]
+        ck.require(bool(inst) and all(inst), "C01.3", "%s: the registered instance is consulted when there is one" % q.fn(fdi),
+                   "lookup under `self.instance is not None`",
+                   "the lookup of the method on the registered instance runs %s: methods of a registered instance are never found"
+                   % ("on the path where no instance is registered" if inst else "without testing that an instance is registered"), q.loc(fdi, n))
+        ad = kwarg(c, "allow_dotted_names", 2)
+        ck.require(isinstance(ad, ast.Constant) and ad.value is True, "C01.3", "%s: dotted names resolved on the instance" % q.fn(fdi),
+                   "allow_dotted_names=True", "resolve_dotted_attribute is called with allow_dotted_names=%s: a dotted method name (a.b) of the "
+                   "registered instance is not resolved" % (dump(ad) if ad is not None else "its default (False)"), q.loc(fdi, n))
     ck.floor("C01.3", 5)
     fs = prog.func(SRV, DISP + "._marshaled_single_dispatch")
     gs = cfg_of(fs)
@@ -475,6 +526,26 @@ def check(ck):
     runs = [(n, c) for n in gm.live_nodes() for c in node_calls(n) if call_name(c) == "_run_request"]
     ck.require(len(runs) == 1 and dump(runs[0][1].func.value) == "self._server", "C01.6", "%s: sent through the proxy" % q.fn(fmc),
                "self._server._run_request(body)", "the batch is not sent through the proxy's _run_request", q.loc(fmc, fmc.node))
+    # every non-empty batch is sent: the guards of the exchange only exclude the empty job list
+    import operator as _op
+    OPS_ = {ast.Lt: _op.lt, ast.LtE: _op.le, ast.Gt: _op.gt, ast.GtE: _op.ge, ast.Eq: _op.eq, ast.NotEq: _op.ne}
+    for (rn0, _c0) in runs[:1]:
+        for (t_, pol_) in q.guards_of(gm, rn0):
+            verdicts = None
+            if isinstance(t_, ast.Compare) and len(t_.ops) == 1 and type(t_.ops[0]) in OPS_:
+                l_, r_ = t_.left, t_.comparators[0]
+                f_ = OPS_[type(t_.ops[0])]
+                if dump(l_) == "len(self._job_list)" and isinstance(r_, ast.Constant) and isinstance(r_.value, int):
+                    verdicts = [f_(k_, r_.value) == pol_ for k_ in (1, 2, 7)]
+                elif dump(r_) == "len(self._job_list)" and isinstance(l_, ast.Constant) and isinstance(l_.value, int):
+                    verdicts = [f_(l_.value, k_) == pol_ for k_ in (1, 2, 7)]
+            elif dump(t_) in ("self._job_list", "len(self._job_list)"):
+                verdicts = [pol_ is True]
+            if verdicts is None:
+                raise AnalysisError("the guard `%s` of the batch exchange is not a test of the job list's size: not modelled" % dump(t_))
+            ck.require(all(verdicts), "C01.6", "%s: guard `%s` lets every non-empty batch through" % (q.fn(fmc), dump(t_)), "excludes the empty job list only",
+                       "the batch is sent only when `%s` is %s, which fails for some non-empty job lists (1, 2 or 7 jobs): those calls are "
+                       "silently not made" % (dump(t_), pol_), q.loc(fmc, rn0))
     dels = [n for n in gm.live_nodes() if n.kind == "stmt" and isinstance(n.ast, ast.Delete) and "_job_list" in dump(n.ast)]
     pdm = postdominators(gm, [gm.return_exit.id], NORMAL)
     if runs:
@@ -501,4 +572,5 @@ def check(ck):
 
     # ---- C01.10 the caller's Config reaches every layer ---------------------------------------------------------------------
     common.check_config_forwarding(ck, "C01.10")
-    ck.floor("C01.10", 6)
+    common.check_base_constructors(ck, "C01.10")
+    ck.floor("C01.10", 20)
